@@ -186,7 +186,10 @@ class SReal:
     def __sub__(self, o):
         if not _num(o):
             return NotImplemented
-        return _mk(self, o, lambda a, b: a - b, lambda a, b: a - b)
+        r = _mk(self, o, lambda a, b: a - b, lambda a, b: a - b)
+        if isinstance(o, SReal):
+            return demote(r)
+        return r
 
     def __rsub__(self, o):
         if not _num(o):
@@ -296,6 +299,20 @@ class SReal:
 
     def __repr__(self):
         return 'S(%s)' % (z3.simplify(self.e),)
+
+
+def demote(r):
+    """a symbolic difference that cancels to a numeral becomes a python
+    number again (coordinate differences of a rigidly shifted structure), so
+    that everything computed from it runs natively"""
+    t = z3.simplify(r.e)
+    if z3.is_int_value(t):
+        return t.as_long()
+    if z3.is_rational_value(t):
+        f = Fraction(t.numerator_as_long(), t.denominator_as_long())
+        return float(f) if not isinstance(r, SInt) else int(f)
+    r.e = t
+    return r
 
 
 class SInt(SReal):
@@ -497,6 +514,60 @@ def _scaled(t):
     return None
 
 
+def linear_form(term):
+    """([(int term, Fraction coefficient)], Fraction constant) with
+    term == sum coeff*ToReal(int term) + constant, or None"""
+    t = z3.simplify(term)
+    return _lin(t)
+
+
+def _lin(t):
+    if z3.is_rational_value(t):
+        return [], Fraction(t.numerator_as_long(), t.denominator_as_long())
+    if z3.is_int_value(t):
+        return [], Fraction(t.as_long())
+    if not z3.is_app(t):
+        return None
+    k = t.decl().kind()
+    if k == z3.Z3_OP_TO_REAL:
+        return [(t.arg(0), Fraction(1))], Fraction(0)
+    if k == z3.Z3_OP_UMINUS:
+        r = _lin(t.arg(0))
+        return None if r is None else ([(e, -cf) for e, cf in r[0]], -r[1])
+    if k in (z3.Z3_OP_ADD, z3.Z3_OP_SUB):
+        terms, const = [], Fraction(0)
+        for i, a in enumerate(t.children()):
+            r = _lin(a)
+            if r is None:
+                return None
+            sg = -1 if (k == z3.Z3_OP_SUB and i > 0) else 1
+            terms += [(e, sg * cf) for e, cf in r[0]]
+            const += sg * r[1]
+        return terms, const
+    if k == z3.Z3_OP_MUL:
+        cst = Fraction(1)
+        rest = []
+        for a in t.children():
+            if z3.is_rational_value(a):
+                cst *= Fraction(a.numerator_as_long(), a.denominator_as_long())
+            else:
+                rest.append(a)
+        if len(rest) != 1:
+            return None
+        r = _lin(rest[0])
+        return None if r is None else ([(e, cf * cst) for e, cf in r[0]], r[1] * cst)
+    if k == z3.Z3_OP_DIV:
+        a, b = t.children()
+        if not z3.is_rational_value(b):
+            return None
+        d = Fraction(b.numerator_as_long(), b.denominator_as_long())
+        r = _lin(a)
+        if r is None or d == 0:
+            return None
+        return [(e, cf / d) for e, cf in r[0]], r[1] / d
+    return None
+
+
 def sround(x, n=None):
     """round(): nearest multiple of 10**-n.  Model: floor(x*10^n + 1/2)/10^n
     (differs from Python's result only at exact ties and by the usual
@@ -510,6 +581,17 @@ def sround(x, n=None):
     if is_sym(n):
         raise Unsupported("round with symbolic ndigits")
     sc = 10 ** n
+    lin = linear_form(lift_real(x))
+    if lin is not None:
+        terms, const = lin
+        if terms and all((cf * sc).denominator == 1 for _, cf in terms):
+            # x = (multiple of 10^-n, symbolic) + constant: rounding to n
+            # decimals commutes with adding a multiple of 10^-n
+            cr = Fraction(_math.floor(const * sc + Fraction(1, 2)), sc)
+            e = rv(cr)
+            for ke, cf in terms:
+                e = e + z3.ToReal(ke) * rv(cf)
+            return SReal(e)
     si = scaled_int(lift_real(x))
     if si is not None:
         ke, s = si
@@ -539,6 +621,16 @@ def strunc(x):
 # --------------------------------------------------------------------------
 # context / explorer
 # --------------------------------------------------------------------------
+
+def _canon(t):
+    """canonical text of a polynomial term (sum-of-monomials normal form), so
+    that equal radicands / quotients written in different orders share one
+    purification symbol"""
+    try:
+        return z3.simplify(t, som=True, mul_to_power=True, sort_sums=True).sexpr()
+    except z3.Z3Exception:
+        return z3.simplify(t).sexpr()
+
 
 class Stats:
     def __init__(self):
@@ -696,7 +788,7 @@ class Ctx:
 
     # -- purification
     def purify_div(self, n, d):
-        key = (z3.simplify(n).sexpr(), z3.simplify(d).sexpr())
+        key = (_canon(n), _canon(d))
         q = self.div_memo.get(key)
         if q is None:
             q = self.fresh_real('div')
@@ -706,7 +798,7 @@ class Ctx:
         return q
 
     def purify_sqrt(self, a):
-        key = z3.simplify(a).sexpr()
+        key = _canon(a)
         r = self.sqrt_memo.get(key)
         if r is None:
             r = self.fresh_real('sqrt')
@@ -828,7 +920,9 @@ class Ctx:
                 self.ex.stats.reasons.append('concretisation cap hit (%s)' % why)
                 self.ex.cap_hit = True
             else:
-                self.alternatives.append(self.decisions + [('c', excluded + (val,), None)])
+                r2, _ = self._check(e != val)
+                if r2 != z3.unsat:
+                    self.alternatives.append(self.decisions + [('c', excluded + (val,), None)])
         self.decisions.append(('c', excluded, val))
         self.assume(e == val)
         return int(val)
@@ -867,7 +961,11 @@ class Ctx:
                 self.ex.stats.reasons.append('concretisation cap hit (floor)')
                 self.ex.cap_hit = True
             else:
-                self.alternatives.append(self.decisions + [('f', excluded + (val,), None)])
+                # queue the alternative only if another value is feasible
+                # (saves a full re-execution that would end in Abort)
+                r2, _ = self._check(z3.Or(e < val, e >= val + 1))
+                if r2 != z3.unsat:
+                    self.alternatives.append(self.decisions + [('f', excluded + (val,), None)])
         self.decisions.append(('f', excluded, val))
         self.assume(z3.And(e >= val, e < val + 1))
         self.floor_memo[key] = val
